@@ -73,6 +73,8 @@ def spec_on_impl(o):
     """The property judged on the implementation's frame alone. Returns None or the reason it fails."""
     if not well_formed_request(o):
         return None        # outside the quantifier of the property
+    if o["kind"] in ("udp", "icmp") and o["has_payload"] and 28 + len(o["payload"]) // 2 > 65535:
+        return None        # does not fit an IPv4 datagram: outside the quantifier (the model still has to agree)
     if o["err"]:
         return "Fill fails on a well-formed request: " + o["err"]
     f = bytes.fromhex(o["frame"])
@@ -287,7 +289,7 @@ def report(ctx, o, why):
 
 
 def nontrivial(o):
-    return well_formed_request(o) and not o["err"]
+    return well_formed_request(o) and not o["err"] and 28 + len(o["payload"]) // 2 <= 65535
 
 
 def distinct_key(o):
@@ -370,8 +372,16 @@ def run(ctx):
     rows = []
     have_harness = ctx.harness_build("c05")
     if have_harness:
-        rows = run_harness(ctx, "cases.jsonl", ["-seed", ctx.seed, "-n", 1100 if quick else 40000,
-                                                "-maxpayload", 1472 if quick else 9000])
+        rows = run_harness(ctx, "cases.jsonl", ["-seed", ctx.seed, "-n", 1100 if quick else 20000,
+                                                "-maxpayload", 1472 if quick else 3000] + ([] if quick else ["-huge"]))
+    if have_harness:
+        cdir = os.path.join(verif.ROOT, "corpus", "C05")
+        for i, name in enumerate(sorted(os.listdir(cdir)) if os.path.isdir(cdir) else []):
+            if name.endswith(".json"):
+                got = run_harness(ctx, "corpus_%d.jsonl" % i, ["-replay", os.path.join(cdir, name)])
+                for o in got:
+                    o["class"], o["i"] = "corpus", 900000 + i
+                rows = got + rows
     for o in rows:
         ctx.count(o["class"], distinct_key(o), nontrivial=nontrivial(o),
                   sample={"case": describe(o), "err": o["err"], "frame": o["frame"][:128]})
